@@ -41,7 +41,7 @@ fn gen(rng: &mut Rng, _i: u64) -> String {
 	let pe64 = rng.chance(1, 2);
 	let e_lfanew = *rng.pick(&[0x40u32, 0x80, 0xF8]);
 	let mut dirs = vec![(0u32, 0u32); 16];
-	let mut spec = ImgSpec { pe64, e_lfanew, soh: 0, soi: 0, image_base: if pe64 { 0x1_4000_0000 } else { 0x40_0000 }, nrva: 16, dirs: dirs.clone(), opt_size: 0, nsec_field: 0, secs: Vec::new(), checksum: 0, magic: if pe64 { 0x20b } else { 0x10b } };
+	let mut spec = ImgSpec { pe64, e_lfanew, soh: 0, soi: 0, image_base: if pe64 { *rng.pick(&[0x1_4000_0000u64, 0x1_4000_0000, 0xFFFF_FFFF_FFFF_0000, 0, 0x10000]) } else { *rng.pick(&[0x40_0000u64, 0x40_0000, 0xFFFF_0000, 0xFFFE_F000, 0, 0x10000]) }, nrva: 16, dirs: dirs.clone(), opt_size: 0, nsec_field: 0, secs: Vec::new(), checksum: 0, magic: if pe64 { 0x20b } else { 0x10b } };
 	spec.opt_size = spec.std_opt_size();
 	let wf = rng.chance(7, 10);
 	let mut pokes: Vec<(usize, Vec<u8>)> = Vec::new();
@@ -442,6 +442,21 @@ macro_rules! run_conv {
 			let show = |base: &[u8], r: &Option<pelite::Result<&[u8]>>| -> String {
 				match r { None => "-".to_string(), Some(Ok(s)) => format!("ok:{}:{}", off(base, s), s.len()), Some(Err(e)) => format!("e:{:?}", e) }
 			};
+			// the VA path on both representations: wherever rva -> va exists, reading at B + r is slicing at r (same bytes, same
+			// error) - on the file view and on the view over the converted buffer alike
+			if p[0] == "s" {
+				let (r, ms) = (n(1) as u32, n(2) as usize);
+				if let Ok(va) = file.rva_to_va(r) {
+					let (a, b2) = (file.read(va, ms, 1), file.slice(r, ms, 1));
+					assert!(a == b2, "harness: read(B+r) differs from slice(r) on the file view at rva {}: {:?} vs {:?}", r, a.map(|x| x.len()), b2.map(|x| x.len()));
+				}
+				if let Some(w) = view {
+					if let Ok(va) = w.rva_to_va(r) {
+						let (a, b2) = (w.read(va, ms, 1), w.slice(r, ms, 1));
+						assert!(a == b2, "harness: read(B+r) differs from slice(r) on the converted view at rva {}: {:?} vs {:?}", r, a.map(|x| x.len()), b2.map(|x| x.len()));
+					}
+				}
+			}
 			let c = match (&rf, &rv) { (Some(Ok(a)), Some(Ok(b))) => common(a, b), _ => 0 };
 			out.push(format!("{}|{}|{}", show(b, &rf), show(vb, &rv), c));
 		}
